@@ -105,7 +105,30 @@ func init() {
 				if !ok {
 					continue
 				}
-				c, isCall := ret.Results[0].(*ssa.Call)
+				// the returned value, looking through a loop variable: every value it can take at the return
+				// is the result of the atomic increment (a constant initial value must be excluded by the
+				// loop's exit test)
+				var c *ssa.Call
+				isCall := true
+				rv := ret.Results[0]
+				rset := setAt(gen, rv, ret)
+				for _, leaf := range phiLeaves(rv) {
+					if k, isK := constInt(leaf); isK && rv != leaf {
+						if rng(k, k).subsetOf(rset) {
+							isCall = false
+						}
+						continue
+					}
+					lc, ok := leaf.(*ssa.Call)
+					if !ok || (c != nil && c != lc) {
+						isCall = false
+						continue
+					}
+					c = lc
+				}
+				if c == nil {
+					isCall = false
+				}
 				if !isCall || atomicOp(&c.Call) != "AddInt32" {
 					okRet = false
 					r.Bad(fname(gen), "id = atomic.AddInt32(&counter, 1)", ret.Pos(), "the returned id is not the result of an atomic increment (two concurrent callers can obtain the same id)")
@@ -341,13 +364,56 @@ func init() {
 			}
 			// channel provenance: typeassert(extract#0(resp.Load(key)))
 			chPath := pathOf(st.Chan)
+			// the channel is (a type assertion of) the value resp.Load returned — through comma-ok
+			// assertions, type switches, result temporaries and phis whose other edges are nil
 			var load *ssa.Call
-			if ta, ok := strip(st.Chan, false).(*ssa.TypeAssert); ok {
-				if ex, ok := ta.X.(*ssa.Extract); ok {
-					if c, ok := ex.Tuple.(*ssa.Call); ok && funcID(calleeObj(&c.Call)) == "sync.(Map).Load" && isFieldOf(c.Call.Args[0], adapterT, "resp") {
-						load = c
+			var trace func(v ssa.Value, d int) *ssa.Call
+			trace = func(v ssa.Value, d int) *ssa.Call {
+				if d > 10 || v == nil {
+					return nil
+				}
+				switch x := v.(type) {
+				case *ssa.TypeAssert:
+					return trace(x.X, d+1)
+				case *ssa.ChangeType:
+					return trace(x.X, d+1)
+				case *ssa.MakeInterface:
+					return trace(x.X, d+1)
+				case *ssa.Extract:
+					if c, ok := x.Tuple.(*ssa.Call); ok {
+						if x.Index == 0 && funcID(calleeObj(&c.Call)) == "sync.(Map).Load" && isFieldOf(c.Call.Args[0], adapterT, "resp") {
+							return c
+						}
+						return nil
+					}
+					if ta, ok := x.Tuple.(*ssa.TypeAssert); ok && x.Index == 0 {
+						return trace(ta.X, d+1)
+					}
+				case *ssa.Phi:
+					var found *ssa.Call
+					for _, e := range x.Edges {
+						if isNilConst(e) || e == ssa.Value(x) {
+							continue
+						}
+						c := trace(e, d+1)
+						if c == nil || (found != nil && found != c) {
+							return nil
+						}
+						found = c
+					}
+					return found
+				case *ssa.UnOp:
+					if x.Op == token.MUL {
+						return trace(resolveLocal(x), d+1)
 					}
 				}
+				return nil
+			}
+			if rl := resolveLocal(st.Chan); rl != st.Chan {
+				load = trace(rl, 0)
+			}
+			if load == nil {
+				load = trace(st.Chan, 0)
 			}
 			if load == nil {
 				r.Bad(where, "channel comes from resp.Load", sel.Pos(), "the reply is sent on %s, which is not the channel looked up in the pending table", chPath)
